@@ -272,6 +272,11 @@ class OutgoingRIB(Cache):
             # Also remove from _new_nlri since we're withdrawing it
             new_nlri.pop(route_index, None)
 
+        # a route withdrawn after a refresh was requested must not be refreshed: in the first
+        # batch of a session withdraws are not sent, so the refreshed copy would stay with the peer
+        if self._refresh_routes:
+            self._refresh_routes = [r for r in self._refresh_routes if r.index() != route_index]
+
         # Store withdraw in separate structure - no deepcopy needed!
         # Store (NLRI, AttributeCollection) tuple, action is determined by which dict it's in
         from exabgp.bgp.message.update.attribute.collection import AttributeCollection as AttrsClass
